@@ -2,7 +2,7 @@
 SPECIFICATION Spec
 CONSTANTS
   Peers = {"p1", "p2"}
-  LocalLevels = {0, 40, 75, 100}
+  LocalLevels = {0, 40, 100}
   PeerLevels = {0, 40, 100}
   Sources = {"incoming", "memory"}
   ModeNames = {"monitor", "sometimes"}
